@@ -105,6 +105,65 @@ def e2e_termination(out, tier):
     return {"e2e_fault_histories": len(batch), "e2e_builds": nb}
 
 
+def e2e_wide_restore(out, tier):
+    """Restores wider than any pool in the process: ONE target with 4 x NumCPU directory outputs (each with a few files) and as many
+    file outputs; 24 independent targets with two directory outputs each.  Build, remove every output from the workspace, build
+    again (all cache hits, everything restored at once): must return, within a limit that is 30 x what it takes.  A restore that
+    waits for helper tasks queued behind itself on one bounded pool never returns."""
+    import os, shutil, subprocess, json, time
+    grog = vlib.build_grog()
+    base = os.path.join(vlib.scratch(), "c04wide")
+    shutil.rmtree(base, ignore_errors=True)
+    ncpu = os.cpu_count() or 4
+    res = []
+    shapes = [("one-target", 1, 4 * ncpu), ("many-targets", 24, 2)] + ([("one-target-8x", 1, 8 * ncpu)] if tier != "quick" else [])
+    for name, ntargets, ndirs in shapes:
+        ws, root = os.path.join(base, name, "ws"), os.path.join(base, name, "root")
+        os.makedirs(ws); os.makedirs(root)
+        targets = []
+        for t in range(ntargets):
+            cmd = "; ".join("mkdir -p d%d_%d/s && echo %d-%d > d%d_%d/a && echo x > d%d_%d/s/b && echo %d > f%d_%d.txt" % (t, k, t, k, t, k, t, k, k, t, k)
+                            for k in range(ndirs))
+            targets.append({"name": "t%d" % t, "command": cmd,
+                            "outputs": ["dir::d%d_%d" % (t, k) for k in range(ndirs)] + ["f%d_%d.txt" % (t, k) for k in range(ndirs)]})
+        json.dump({"targets": targets}, open(os.path.join(ws, "BUILD.json"), "w"))
+        open(os.path.join(ws, "grog.toml"), "w").write("")
+        env = {"PATH": os.environ["PATH"], "GROG_ROOT": root, "HOME": os.path.join(base, name), "NO_COLOR": "1"}
+        LIMIT = 60
+        runs = []
+        for step in ("build", "wipe+build (restore)", "build (no-op)"):
+            if step.startswith("wipe"):
+                for e in os.listdir(ws):
+                    if e.startswith("d") or e.startswith("f"):
+                        q = os.path.join(ws, e)
+                        shutil.rmtree(q) if os.path.isdir(q) else os.unlink(q)
+            t0 = time.time()
+            try:
+                p = subprocess.run([grog, "build"], cwd=ws, env=env, stdin=subprocess.DEVNULL, stdout=subprocess.PIPE, stderr=subprocess.PIPE,
+                                   text=True, timeout=LIMIT)
+                rc, tail = p.returncode, (p.stdout + p.stderr)[-300:]
+            except subprocess.TimeoutExpired as e:
+                rc, tail = "hang", ""
+            runs.append({"step": step, "rc": rc, "seconds": round(time.time() - t0, 2)})
+            rp = {"workspace": "%d target(s) with %d dir:: outputs (3 files each) and %d file outputs each" % (ntargets, ndirs, ndirs),
+                  "history": runs, "limit_s": LIMIT, "cpus": ncpu}
+            if rc == "hang":
+                out.violation("`grog build` does not return within %d s while restoring %d x %d directory outputs from the cache (step: %s)" % (
+                    LIMIT, ntargets, ndirs, step), rp)
+                break
+            if rc != 0:
+                out.violation("wide-restore scenario: `grog build` failed (rc %s) at step %s: %s" % (rc, step, " ".join(tail.split())[-200:]), rp, no_input=True)
+                break
+        else:
+            missing = [d for t in range(ntargets) for k in range(ndirs) for d in ("d%d_%d/s/b" % (t, k), "f%d_%d.txt" % (t, k))
+                       if not os.path.exists(os.path.join(ws, d))]
+            if missing:
+                out.violation("after the restore of %d x %d directory outputs %d declared entries are missing, e.g. %s" % (ntargets, ndirs, len(missing), missing[:3]), rp)
+        res.append({"shape": name, "targets": ntargets, "dir_outputs_per_target": ndirs, "runs": runs})
+    shutil.rmtree(base, ignore_errors=True)
+    return res
+
+
 def run(out, tier):
     findings = {f["class"]: f for f in vlib.known_findings("C04")}
     info, scheds, extra = walkerlib.gated_campaign(out, "C04", tier, "term", race=(tier == "thorough"))
@@ -129,6 +188,7 @@ def run(out, tier):
     except (ImportError, AttributeError):
         out.notes.append("restore fault cases not available yet")
     e2e = e2e_termination(out, tier)
+    e2e["wide_restore"] = e2e_wide_restore(out, tier)
     samples = []
     for s in scheds[:400:150]:
         tr = extra.get("traces", {}).get(s["id"])
